@@ -102,13 +102,25 @@ type scenario struct {
 }
 
 func (s *scenario) close() {
-	if s.cl != nil {
-		s.cl.Close()
-	}
 	for _, x := range s.scr {
 		if x != nil {
 			x.Close()
 		}
+	}
+	if s.cl != nil {
+		// a client that was stuck on a scripted endpoint moves on now: let it finish while the other endpoints of
+		// this scenario still exist (their ports may belong to somebody else a moment after they are closed)
+		for i := 0; i < 40; i++ {
+			open := false
+			for _, t := range s.cl.Trace.Trials() {
+				open = open || t.Open
+			}
+			if !open {
+				break
+			}
+			time.Sleep(50 * time.Millisecond)
+		}
+		s.cl.Close()
 	}
 	for _, e := range s.eps {
 		if e != nil {
@@ -460,7 +472,9 @@ func runList(rec *vcommon.Rec, c *anyCase) (stalled bool) {
 				break
 			}
 			rec.Stat("bytes_verified", 6000)
-			if want == "FWD" && (len(trials) > 0 || sum(phys) > 0) {
+			if want == "FWD" && len(trials) > 0 {
+				// decided by the client's own Connect calls on the listed upstreams; the endpoints' counters are
+				// reported with it (a stray datagram from elsewhere on the machine can move a udp counter)
 				viol("forward:not-tried-first")
 			}
 			if want != "FWD" && wantIdx >= 0 && phys[wantIdx] < 1 {
@@ -579,7 +593,7 @@ func listCases(rec *vcommon.Rec) []*anyCase {
 		}
 	}
 	all := []string{"none", "reachable", "refused"}
-	reps := rec.Pick(8, 24)
+	reps := rec.Pick(8, 60)
 	for rep := 0; rep < reps; rep++ {
 		for length := 1; length <= 3; length++ {
 			for mask := 0; mask < 1<<uint(length); mask++ { // every failing subset
@@ -587,7 +601,7 @@ func listCases(rec *vcommon.Rec) []*anyCase {
 			}
 		}
 	}
-	for i := 0; i < rec.Pick(40, 200); i++ { // seeded sample of 4-entry lists
+	for i := 0; i < rec.Pick(40, 600); i++ { // seeded sample of 4-entry lists
 		gen(4, rng.Intn(16), []string{all[rng.Intn(3)]})
 	}
 	return out
@@ -644,6 +658,7 @@ func runReuse(rec *vcommon.Rec, c *anyCase) (stalled bool) {
 	verifhook.Set("upstream.locked", func() { time.Sleep(150 * time.Millisecond) })
 	defer verifhook.Set("upstream.locked", nil)
 	lockedBefore := verifhook.Count("upstream.locked")
+	sessionsBefore := verifhook.Count("server.session") // sessions the real servers of this process have accepted
 
 	res := make([]*connResult, c.M)
 	var wg sync.WaitGroup
@@ -665,6 +680,7 @@ func runReuse(rec *vcommon.Rec, c *anyCase) (stalled bool) {
 		later = append(later, s.connect(uint64(c.Seed)*64+uint64(c.M+i)+1, 4096, stdWait, true))
 	}
 	physEnd := s.eps[0].Physical()
+	sessions := verifhook.Count("server.session") - sessionsBefore
 	bad, inconcl := 0, 0
 	var outcomes []string
 	for _, r := range append(append([]*connResult{}, res...), later...) {
@@ -683,7 +699,7 @@ func runReuse(rec *vcommon.Rec, c *anyCase) (stalled bool) {
 		r.done()
 	}
 	obs := map[string]interface{}{"physical_connections_after_concurrent_wave": physWave1, "physical_connections_at_end": physEnd,
-		"logical_connections": c.M + 2, "not_served_correctly": bad, "outcomes": outcomes,
+		"logical_connections": c.M + 2, "not_served_correctly": bad, "outcomes": outcomes, "sessions_accepted_by_the_server": sessions,
 		"visits_of_the_locked_open_path": verifhook.Count("upstream.locked") - lockedBefore}
 	rec.Seen("reuse(kind,m,secure)", fmt.Sprintf("%s|%d|%v", c.Kind, c.M, c.Secure))
 	if inconcl > 0 {
@@ -694,11 +710,15 @@ func runReuse(rec *vcommon.Rec, c *anyCase) (stalled bool) {
 	rec.Case(c.key(), true)
 	rec.Stat("reuse:logical_connections_carrying_verified_data", int64(c.M+2-bad))
 	rec.StatMax("reuse:physical_connections_for_one_wave", physWave1)
+	// the relay's count is the physical witness; the server's own count of accepted sessions corroborates it
+	// (a connection from elsewhere on the machine that strays into the relay's port is no session of this client)
 	switch {
-	case physWave1 > 1:
+	case physWave1 > 1 && sessions > 1:
 		rec.Violation("reuse:several-physical-sessions-for-concurrent-connections", c, obs)
-	case physEnd > physWave1:
+	case physEnd > physWave1 && sessions > 1:
 		rec.Violation("reuse:new-physical-session-although-one-is-up", c, obs)
+	case physEnd > 1:
+		rec.Note("reuse: relay counted more connections than the server accepted sessions (stray connection?)", obs)
 	}
 	if bad > 0 {
 		if stalled {
